@@ -850,16 +850,17 @@ MANIFEST = {
 		'every member form and every attribute form on enums, structs and members, any mix and order - parse (print ds) = ok ds, at character '
 		'level through line splitting, the Indenter, blocks, statement loops and all line parsers), its line-level parts (alias line, enum '
 		'header and value, struct header, every member form, every struct and member attribute), legacy_of_parse, '
-		'print_parse_fixpoint_partial, and the trivia theorems parse_crlf (all documents without carriage returns), parse_blank_lines, '
+		'parse_output_wf (for every document the declarations of a successful parse are well-formed), print_parse_fixpoint (for every document '
+		'that parses to comment-free declarations, parse (print (parse doc)) = parse doc, well-formedness derived not assumed), '
+		'comment_roundtrip (a comment in normal form is normalised back from its printed # lines), and the trivia theorems parse_crlf (all documents without carriage returns), parse_blank_lines, '
 		'tab_is_four_spaces / tab_or_four_spaces_same_line, decimal_numeral_roundtrip. The model is tied to catbuffer.lark / CatsLarkParser.py '
 		'/ ast.py by a differential run on grammar-directed generated documents (every declaration, member and attribute form, comments, blank '
 		'lines, LF/CRLF, tab/4-space, decimal/hex) and on every shipped .cats file, comparing objects, to_legacy_descriptor(), str(node) and '
 		'print-and-reparse; the property is also evaluated directly on the real parser against descriptors computed from the generated structure.'),
 	'level_note': (
 		'Trusted: Lean kernel + {propext, Classical.choice, Quot.sound}; hand-written model tied by differential execution only; lark\'s LALR engine '
-		'and contextual lexer are not modelled (the language and the objects are). Not proved: comments (attached documentation, comment '
-		'normalisation) in parse_render; that the parser only produces printable declarations (so print_parse_fixpoint carries the hypothesis '
-		'WFDeclsA); hexadecimal numerals in general; blank lines inside declarations and tab-vs-blank at document level. Known findings still '
+		'and contextual lexer are not modelled (the language and the objects are). Not proved: comments inside parse_render / print_parse_fixpoint (merging of comment lines, '
+		'attachment, dropping of free comments - only the text normalisation comment_roundtrip is proved); hexadecimal numerals in general; blank lines inside declarations and tab-vs-blank at document level. Known findings still '
 		'open on the tree: Attribute.__str__ treats a property called `not` as a qualifier; a comment before an `inline X` member (or a member '
 		'whose name starts like a top-level keyword) makes the parser reject a well-formed struct.'),
 	'technique': 'Lean 4 theorems over a hand-written model + differential correspondence with the Python implementation',
